@@ -13,6 +13,10 @@ namespace Rivaas.Bind
 /-- leaf kinds; `w = 0` is Go's `int`/`uint` (64 bit on the platform the harness runs on) -/
 inductive Prim
   | int (w : Nat) | uint (w : Nat) | f32 | f64 | bool | str | time | dur
+  /-- a leaf type with its own text form, parsed by the standard library or by the type's own
+      `UnmarshalText` (`k`: 0 url.URL, 1 net.IP, 2 net.IPNet, 3 regexp.Regexp, ≥ 4 a
+      `encoding.TextUnmarshaler` type of the corpus); its values are canonical renderings -/
+  | opq (k : Nat)
   deriving DecidableEq, Repr, Inhabited
 
 def bitsOf (w : Nat) : Nat := if w = 0 then 64 else w
@@ -125,6 +129,8 @@ structure PEntry where
   t : Option Bytes := none
   d : Option Int := none
   j : Option (List (Bytes × Bytes)) := none
+  /-- opaque kinds: kind ↦ canonical rendering of the parsed value (absent: the parse fails) -/
+  o : List (Nat × Bytes) := []
   deriving Repr, Inhabited
 
 abbrev Params := Bytes → PEntry
@@ -178,6 +184,7 @@ def zeroTime : Bytes := B "0001-01-01T00:00:00Z"
 def zeroPrim : Prim → Val
   | .int _ => .int 0 | .uint _ => .uint 0 | .f32 => .flt 0 | .f64 => .flt 0
   | .bool => .bool false | .str => .str [] | .time => .time zeroTime | .dur => .int 0
+  | .opq _ => .time []
 
 mutual
 def zero : Ty → Val
